@@ -85,6 +85,11 @@ def input_trees(r):
                                                {"p": "g/sub/l3", "k": "l", "target": ".."}, D("dst")], ["--glob", "g/**/*.txt", "dst"])
     out["glob-doublestar-over-self-links-no-match"] = ([D("g"), F("g/a.txt", 10, 1), D("g/sub"), F("g/sub/b.txt", 10, 2), {"p": "g/l1", "k": "l", "target": "."}, {"p": "g/l2", "k": "l", "target": "."},
                                                         F("other.txt", 5, 3), D("dst")], ["--glob", "g/**/zzz", "other.txt", "dst"])
+    out["removed-cwd-relative-destination"] = ([D("src"), F("src/a", 100, 1), D("src/sub"), F("src/sub/b", 10, 2)], ["-r", "@ROOT@/src", "newdir"])
+    out["removed-cwd-relative-source"] = ([D("src"), F("src/a", 100, 1)], ["-r", "../src", "@ROOT@/dst"])
+    out["removed-cwd-backup"] = ([D("src"), F("src/a", 100, 1), D("dst"), D("dst/src"), F("dst/src/a", 5, 2)], ["--backup", "numbered", "-r", "@ROOT@/src", "@ROOT@/dst"])
+    # very many sources on the command line: the checks made before the copy starts must not grow with the square of their number
+    out["many-sources-preflight"] = ([D("s"), D("dst")] + [F("s/f%04d" % i, 0, i + 1) for i in range(1200)], ["s/f%04d" % i for i in range(1200)] + ["dst"])
     out["block-device"] = ([D("src")] + [F("src/f%d" % i, 100, i + 1) for i in range(20)] + [{"p": "src/zblk", "k": "blk", "rdev": [7, 99]}], ["-r", "src", "dst"])
     # every worker dies early (failure on the special-file path sends no Error update) while hundreds of operations remain to be queued
     lots = [D("src2")] + [F("src2/f%03d" % i, 10, i + 1) for i in range(400)]
@@ -103,7 +108,7 @@ def gen_cases(tier, seed):
         for driver in ("parfile", "parblock"):
             for w in ([1, 4, 64, 0] if tier == "quick" else [1, 2, 3, 7, 16, 64, 0, 200]):
                 for si, sch in enumerate(SCHEDS):
-                    if name.startswith("glob-doublestar-over-self-links"):
+                    if name.startswith("glob-doublestar-over-self-links") or name == "many-sources-preflight":
                         if not (w == 1 and si < (1 if tier == "quick" else 3)):
                             continue      # (the expansion happens before any thread is started: one schedule tells it all)
                     elif tier == "quick" and (si + w) % 3 and name not in ("gitignore-fifo",):
@@ -235,7 +240,13 @@ def run_case(case):
         plan = dict(case["plan"])
         plan.update({"log_mode": "none", "max_steps": plan.get("max_steps", 600000), "cpu_ms": 30000, "wall_ms": 90000, "pct_horizon": 500})
         fam = case["family"]
-        if fam == "A":
+        if fam == "A" and case["name"].startswith("removed-cwd"):
+            # started in a working directory that has been removed since (every relative path is then unresolvable)
+            argv = ["sh", "-c", 'mkdir .gone && cd .gone && rmdir ../.gone && exec "$@"', "sh"] + core.xcp_argv([a.replace("@ROOT@", root) for a in case["args"]])
+            run = core.run_supervised(sb, argv, plan)
+            ok = judge_termination(run, res, "input:%s:%s" % (case["name"], case["driver"]), " ".join(case["args"]))
+            key = ["A", case["name"], case["driver"], case["workers"], case["plan"]["sched"]]
+        elif fam == "A":
             run = core.run_xcp(sb, case["args"], plan)
             ok = judge_termination(run, res, "input:%s:%s" % (case["name"], case["driver"]), " ".join(case["args"]))
             key = ["A", case["name"], case["driver"], case["workers"], case["plan"]["sched"]]
